@@ -170,8 +170,10 @@ def hyp_job(job):
                 "latency": draw(st.integers(0, 3)), "api": draw(st.booleans()),
                 "host": draw(st.sampled_from(netcase.HOSTS[:1] * 3 + netcase.HOSTS))}
         if transport == "tcp":
-            case["connect"] = draw(st.lists(st.sampled_from(("ok", "ok", "refused", "unreachable", "hangs", "timeout")),
+            case["connect"] = draw(st.lists(st.sampled_from(("ok", "ok", "refused", "unreachable", "hangs", "timeout", "hostunreach", "gaierror", "multiple")),
                                             max_size=R + 1))
+        elif draw(st.integers(0, 5)) == 0:     # opening the UDP socket fails (routing / name resolution)
+            case["connect"] = draw(st.lists(st.sampled_from(("ok", "unreachable", "gaierror", "hostunreach")), min_size=1, max_size=R + 1))
         return case
 
     def body(case):
